@@ -106,7 +106,7 @@ func termOf(v sVal) (*pt, bool) { return isProtoInt(v) }
 // glueStep: instructions on slice shapes. Returns true when handled.
 func (d *protoDom) glueStep(st *sState, in ssa.Instruction) bool {
 	e := d.e
-	if d.stream && d.streamStep(st, in) {
+	if d.streamStep(st, in) {
 		return true
 	}
 	pos := e.p.InstrPos(in)
